@@ -300,6 +300,10 @@ def _finiteness(ctx, prog, b, nslots):
                 good = False
         ok = good and covered == nslots
         msg = 'flag cleared on !is_finite(candidate[ji]) for ji in 0..%s (needs 0..%d)' % (covered, nslots)
+    if not ok:
+        tv = opw.tail_verdict(ctx, b, nslots == 5, ('finite-slots',))
+        if tv is not None:
+            ok, msg = tv
     ctx.check(ok, 'R01.4', name + '/finite-slots', b.where(bi), b.path, 'not every angle slot is checked for finiteness before the candidate is accepted: ' + msg, detail=msg)
 
 
@@ -418,6 +422,13 @@ def _normalisation(ctx, b, nslots):
             ctx.check(okh, 'R01.6', name + '/reduce-to-pi', b.where(helper_stores[0][0], helper_stores[0][1]), b.path,
                       'angles are stored through a helper that does not confine them to [-pi, pi] by whole turns on every path',
                       detail='stored through %s: result dominated by the exits x <= PI and x >= -PI; updates by +-2*PI only' % helper_stores[0][2][1])
+            return
+    if not (len(ang) == 1 and sols[0] is not None):
+        # not in the read shape (iterator chains, a helper returning the reduced row ..): what the solver returns, scenario by scenario
+        tv = opw.tail_verdict(ctx, b, nslots == 5, ('reduce-to-pi',))
+        if tv is not None:
+            ctx.check(tv[0], 'R01.6', name + '/reduce-to-pi', b.where(0), b.path,
+                      'every returned angle must be the candidate moved by whole turns into (-pi, pi]: ' + tv[1], detail=tv[1])
             return
     if not ctx.check(len(ang) == 1 and sols[0] is not None, 'R01.6', name + '/locals', b.where(0), b.path, 'normalisation loop not found (an f64 reduced by +/- 2*PI and stored back into the candidate array)'):
         return
